@@ -34,11 +34,11 @@ func init() {
 				Flavours: fl,
 				Blocks:   16,
 				Procs:    16,
-				Rule: "mbits: every length 0..16 x every alignment 0..7 x every zero/non-zero pattern (exhaustive), lengths 17..40 (64 thorough) x alignments x structured and random patterns; each in two layouts: a window inside a guard-filled buffer, and a slice that ends exactly at the end of its allocation; LeadingZeroes/TrailingZeroes vs byte loops, Zero clears exactly the slice and returns its length, guard bytes intact; run plain, under -race (checkptr) and, in thorough, under -asan. " +
+				Rule: "mbits: every length 0..16 x every alignment 0..7 x every zero/non-zero pattern (exhaustive), lengths 17..40 (64 thorough) x alignments x structured and random patterns; lengths 16..136 with pairs/triples of 64-bit words that cancel under +, xor and or/and-not (for implementations that combine words before testing), at both possible word phases; a few buffers of 4095..65536 bytes; each in two layouts: a window inside a guard-filled buffer, and a slice that ends exactly at the end of its allocation; LeadingZeroes/TrailingZeroes vs byte loops, Zero clears exactly the slice and returns its length, guard bytes intact; run plain, under -race (checkptr) and, in thorough, under -asan. " +
 					"mstr.Trunc: every string of <= 5 runes over 1-, 2-, 3- and 4-byte runes x every n in 0..len+2 (prefix, len <= n, identity when n >= len, valid UTF-8, len >= n-4 when cut), random invalid byte strings for the unconditional clauses. " +
 					"mstr.CompareNatural: all 259 strings of length <= 3 over {0,1,9,/,:,a}: result in {-1,0,1}, antisymmetry on all pairs, transitivity on all 17.4 M triples (counted: those whose premises a<=b<=c hold), zero iff equal after stripping leading zeros of digit runs; numeric order of embedded digit runs of up to 18 digits. " +
 					"distinct = enumerated inputs; non-trivial = mbits length >= 8 (word loop engaged) / Trunc cuts inside a multi-byte rune / CompareNatural pair with a digit run on both sides",
-				Required:     []string{"mbits_cases", "mbits_unaligned_word_cases", "mbits_exact_end_cases", "trunc_cases", "trunc_cuts_inside_rune", "natural_pairs", "natural_triples", "natural_numeric_pairs"},
+				Required:     []string{"mbits_cases", "mbits_unaligned_word_cases", "mbits_exact_end_cases", "mbits_cancelling_word_cases", "trunc_cases", "trunc_cuts_inside_rune", "natural_pairs", "natural_triples", "natural_numeric_pairs"},
 				Exhaustive:   true,
 				Assumptions:  []string{"an over-read that stays inside one allocation and does not change the result is invisible to this monitor", "digit runs are kept to <= 18 digits so that int does not overflow"},
 				CoverPkgs:    []string{"github.com/creachadair/mds/mbits", "github.com/creachadair/mds/mstr"},
@@ -101,23 +101,33 @@ func naiveTrailing(d []byte) int {
 // c20mbits checks one (length, alignment, pattern, layout). pattern bit i set
 // means byte i is non-zero.
 func c20mbits(c *fw.Ctx, n, align int, pattern uint64, layout int) {
-	buf, w, off := mkWindow(n, align, layout)
+	vals := make([]byte, n)
 	for i := 0; i < n; i++ {
 		if pattern>>uint(i)&1 == 1 {
-			w[i] = []byte{0x01, 0x80, 0xff, 0x10}[i%4]
-		} else {
-			w[i] = 0
+			vals[i] = []byte{0x01, 0x80, 0xff, 0x10}[i%4]
 		}
 	}
-	data := map[string]any{"len": n, "alignment": align, "nonzero_mask": fmt.Sprintf("%b", pattern), "layout": []string{"window in guarded buffer", "slice ending at the end of its allocation"}[layout]}
+	c20mbitsVals(c, vals, align, layout, fmt.Sprintf("nonzero mask %b", pattern))
+}
+
+// c20mbitsVals checks the three functions on a slice holding exactly vals.
+func c20mbitsVals(c *fw.Ctx, vals []byte, align, layout int, desc string) {
+	n := len(vals)
+	pattern := desc
+	buf, w, off := mkWindow(n, align, layout)
+	copy(w, vals)
+	data := map[string]any{"len": n, "alignment": align, "contents": pattern, "layout": []string{"window in guarded buffer", "slice ending at the end of its allocation"}[layout]}
+	if n <= 160 {
+		data["bytes_hex"] = fmt.Sprintf("%x", vals)
+	}
 	keep := append([]byte(nil), buf...)
 	wantL, wantT := naiveLeading(w), naiveTrailing(w)
-	c.Call("mbits.LeadingZeroes len=%d align=%d layout=%d mask=%b", n, align, layout, pattern)
+	c.Call("mbits.LeadingZeroes len=%d align=%d layout=%d %s", n, align, layout, pattern)
 	if got := mbits.LeadingZeroes(w); got != wantL {
 		c.Fail(data, "LeadingZeroes = %d, byte loop says %d", got, wantL)
 		return
 	}
-	c.Call("mbits.TrailingZeroes len=%d align=%d layout=%d mask=%b", n, align, layout, pattern)
+	c.Call("mbits.TrailingZeroes len=%d align=%d layout=%d %s", n, align, layout, pattern)
 	if got := mbits.TrailingZeroes(w); got != wantT {
 		c.Fail(data, "TrailingZeroes = %d, byte loop says %d", got, wantT)
 		return
@@ -396,6 +406,90 @@ func runC20(c *fw.Ctx) {
 		c.Add("mbits_cases", cnt)
 		c.Add("mbits_unaligned_word_cases", un)
 		c.Add("mbits_exact_end_cases", ex)
+		c.SeenEnum(cnt)
+	}
+	idx += 100
+	// words that cancel: if the implementation combines several 64-bit words
+	// before testing for zero (sum, xor, and/or trees in an unrolled loop), a
+	// block can look all-zero although it is not. For every length 16..136,
+	// every alignment and every pair/triple of word positions the words are
+	// set to (x, -x), (x, x), (x, ^x+1...) and triples (x, y, -(x+y)).
+	if c.Begin(idx + c.Block) {
+		r := c.Rng()
+		var cnt int64
+		xs := []uint64{1, 0x80, 1 << 63, 0xff, ^uint64(0), 0x0100000000000000, 0x8000000000000080, 0x00ff00ff00ff00ff}
+		put := func(v []byte, at int, x uint64) {
+			for i := 0; i < 8 && at+i < len(v); i++ {
+				if at+i >= 0 {
+					v[at+i] = byte(x >> (8 * uint(i)))
+				}
+			}
+		}
+		for n := 16; n <= c.Pick(136, 264); n += 8 {
+			if (n/8)%c.NBlocks != c.Block%min(c.NBlocks, 16) {
+				continue
+			}
+			for align := 0; align < 8; align++ {
+				// word boundaries as the implementation may see them: relative to the slice start, and relative to the 8-byte address grid
+				for _, phase := range []int{0, (8 - align) % 8} {
+					words := (n - phase) / 8
+					for a := 0; a < words; a++ {
+						for b := a + 1; b < words && b < a+9; b++ {
+							x := xs[(a+b+n)%len(xs)]
+							if r.IntN(3) == 0 {
+								x = r.Uint64() | 1
+							}
+							for _, combo := range [][2]uint64{{x, -x}, {x, x}, {x, ^x}} {
+								vals := make([]byte, n)
+								put(vals, phase+8*a, combo[0])
+								put(vals, phase+8*b, combo[1])
+								c20mbitsVals(c, vals, align, int(cnt)%2, fmt.Sprintf("words %d and %d (from byte %d) hold %#x and %#x", a, b, phase, combo[0], combo[1]))
+								cnt++
+							}
+							if b+1 < words {
+								y := xs[(a+n)%len(xs)]
+								vals := make([]byte, n)
+								put(vals, phase+8*a, x)
+								put(vals, phase+8*b, y)
+								put(vals, phase+8*(b+1), -(x + y))
+								c20mbitsVals(c, vals, align, int(cnt)%2, fmt.Sprintf("words %d, %d, %d hold x, y, -(x+y)", a, b, b+1))
+								cnt++
+							}
+						}
+					}
+				}
+			}
+			if c.Stopped() {
+				return
+			}
+		}
+		c.Evals(cnt)
+		c.Add("mbits_cases", cnt)
+		c.Add("mbits_cancelling_word_cases", cnt)
+		c.SeenEnum(cnt)
+	}
+	idx += 100
+	// large buffers (thresholds in the thousands)
+	if c.Begin(idx + c.Block) {
+		r := c.Rng()
+		var cnt int64
+		for _, n := range []int{4095, 4096, 4097, 8191, 8200, 65536 + c.Block} {
+			for k := 0; k < 3; k++ {
+				vals := make([]byte, n)
+				switch k {
+				case 1:
+					vals[r.IntN(n)] = byte(1 + r.IntN(255))
+				case 2:
+					for j := 0; j < 5; j++ {
+						vals[r.IntN(n)] = byte(1 + r.IntN(255))
+					}
+				}
+				c20mbitsVals(c, vals, (c.Block+k)%8, k%2, fmt.Sprintf("%d bytes, %d non-zero at random positions", n, []int{0, 1, 5}[k]))
+				cnt++
+			}
+		}
+		c.Evals(cnt)
+		c.Add("mbits_cases", cnt)
 		c.SeenEnum(cnt)
 	}
 	idx += 100
